@@ -105,7 +105,7 @@ def truthy(v):
     raise Unsupported(f"truthiness of {v.kind}")
 
 
-LEAN_TYPES = {"int": "Int", "bool": "Bool", "fix": "Int", "opt:int": "Option Int", "opt:fix": "Option Int",
+LEAN_TYPES = {"ints": "List Int", "int": "Int", "bool": "Bool", "fix": "Int", "opt:int": "Option Int", "opt:fix": "Option Int",
               "opt:bool": "Option Bool", "bytes": "Bytes"}
 
 
@@ -134,6 +134,7 @@ class Tr:
         self.consts = module_consts or {}
         self.generated = generated or {}     # python method name -> (lean name, arg kinds, result kind)
         self.effectful = spec.get("effectful", False)
+        self.obligations = []
 
     # ---- expressions -------------------------------------------------------------------------
     def expr(self, e, st, sc):
@@ -191,12 +192,29 @@ class Tr:
         if isinstance(e, ast.Compare):
             return V("bool", self.compare(e, st, sc))
         if isinstance(e, ast.Subscript):
+            if isinstance(e.value, ast.Name) and e.value.id in self.spec.get("tables", {}) and e.value.id not in st:
+                # lookup in a module-level constant list: the index must be provably in range (`expr & mask`, mask < len)
+                tname, tlen = self.spec["tables"][e.value.id]
+                iv = self.expr(e.slice, st, sc)
+                import re as _re
+                m = _re.fullmatch(r"Py\.band .* (\d+)", iv.lean or "")
+                if iv.kind != "int" or not m or int(m.group(1)) >= tlen:
+                    raise Unsupported("table index not of the form `expr & mask` with mask < len(table)")
+                return V("int", f"Py.tableGet {tname} {paren(iv.lean)}")
             base = self.expr(e.value, st, sc)
+            if isinstance(e.slice, ast.Slice) and self.is_seq(base):
+                if e.slice.step is not None:
+                    raise Unsupported("slice step")
+                return V("ints", f"Py.slice {paren(self.seq_term(base))} {self.slice_bound(e.slice.lower, st, sc)} "
+                                 f"{self.slice_bound(e.slice.upper, st, sc)}")
             if base.kind == "bytesvar":
                 idx = e.slice
                 if isinstance(idx, ast.Constant) and isinstance(idx.value, int) and idx.value >= 0:
                     return self.read(base, idx.value, sc)
-                raise Unsupported("non-constant or negative index into bytes argument")
+                if isinstance(idx, ast.UnaryOp) and isinstance(idx.op, ast.USub) and isinstance(idx.operand, ast.Constant) \
+                        and isinstance(idx.operand.value, int):
+                    return self.read_general(f"Py.ints {base.lean}", -idx.operand.value, sc)
+                raise Unsupported("non-constant index into bytes argument")
             if base.kind == "seq":
                 idx = e.slice
                 if isinstance(idx, ast.Constant) and isinstance(idx.value, int) and 0 <= idx.value < len(base.items):
@@ -218,6 +236,18 @@ class Tr:
                 raise Unsupported("first read of an index inside a non-returning branch")
             name = f"{base.lean}_{i}"
             sc.reads.append((key, name))
+        return V("int", name)
+
+    def read_general(self, term, i, sc):
+        """`seq[i]` for a constant (possibly negative) index: IndexError outside"""
+        key = (term, i)
+        name = sc.lookup(key)
+        if name is None:
+            if getattr(sc, "pure_branch", False):
+                raise Unsupported("first read of an index inside a non-returning branch")
+            name = "item_%d%s" % (len(sc.reads), "m" if i < 0 else "")
+            sc.reads.append((key, name))
+            sc.general = getattr(sc, "general", set()) | {key}
         return V("int", name)
 
     def ite(self, c, a, b):
@@ -261,14 +291,31 @@ class Tr:
         raise Unsupported(f"cannot make optional {inner} from {v.kind}")
 
     def seq_term(self, v):
+        """Lean term of type `List Int` for any byte-sequence value"""
         if v.kind == "seq":
             return "[" + ", ".join(to_int_term(x) for x in v.items) + "]"
-        if v.kind == "ilistexpr":
+        if v.kind in ("ilistexpr", "ints"):
             return v.lean
+        if v.kind == "bytesvar":
+            return f"Py.ints {v.lean}"
         raise Unsupported("byte sequence expected, got " + v.kind)
+
+    @staticmethod
+    def is_seq(v):
+        return v.kind in ("seq", "ilistexpr", "ints", "bytesvar")
+
+    def slice_bound(self, b, st, sc):
+        if b is None:
+            return "none"
+        v = self.expr(b, st, sc)
+        return f"(some {paren(to_int_term(v))})"
 
     def binop(self, op, a, b):
         ck = None
+        if isinstance(op, ast.Add) and self.is_seq(a) and self.is_seq(b):
+            if a.kind == "seq" and b.kind == "seq":
+                return V("seq", items=list(a.items) + list(b.items))
+            return V("ints", f"({self.seq_term(a)} ++ {self.seq_term(b)})")
         if isinstance(op, (ast.BitAnd, ast.BitOr, ast.BitXor)):
             if a.kind == "bool" and b.kind == "bool":
                 sym = {"BitAnd": "&&", "BitOr": "||", "BitXor": "!="}[type(op).__name__]
@@ -368,8 +415,17 @@ class Tr:
                 if v.kind == "seq":
                     return lit_int(len(v.items))
                 raise Unsupported("len of " + v.kind)
+            if f.id == "sum" and len(args) == 1:
+                v = self.expr(args[0], st, sc)
+                if self.is_seq(v):
+                    return V("int", f"Py.sumI {paren(self.seq_term(v))}")
+                raise Unsupported("sum of " + v.kind)
+            if f.id in self.spec.get("functions", {}):
+                return self.call_generated(self.spec["functions"][f.id], args, st, sc)
             if f.id in ("bytes", "bytearray") and len(args) == 1:
                 v = self.expr(args[0], st, sc)
+                if v.kind in ("ints", "bytesvar"):
+                    return V("ints", self.seq_term(v))
                 if v.kind == "ilist":
                     return V("seq", items=v.items)
                 if v.kind == "int" and v.const is not None and 0 <= v.const <= 64:
@@ -385,6 +441,11 @@ class Tr:
                 x = to_fix_term(v)
                 return V("tuple", items=[V("fix", f"Int.tmod {paren(x)} {SCALE}"),
                                           V("fix", f"({SCALE} * Int.tdiv {paren(x)} {SCALE})")])
+            qual = (f.value.id + "." + f.attr) if isinstance(f.value, ast.Name) else None
+            if qual in self.spec.get("functions", {}):
+                return self.call_generated(self.spec["functions"][qual], args, st, sc)
+            if isinstance(f.value, ast.Name) and f.value.id == "self" and f.attr in self.spec.get("call_inputs", {}) and not args:
+                return st[self.spec["call_inputs"][f.attr]]
             if isinstance(f.value, ast.Name) and f.value.id == "self" and f.attr in self.generated:
                 lean_name, kinds, rkind = self.generated[f.attr]
                 if len(args) != len(kinds):
@@ -397,12 +458,26 @@ class Tr:
                 return V(rkind, f"{lean_name} " + " ".join(terms))
         raise Unsupported("call " + ast.unparse(e)[:60])
 
+    def call_generated(self, target, args, st, sc):
+        lean_name, kinds, rkind = target
+        if len(args) != len(kinds):
+            raise Unsupported("arity of " + lean_name)
+        terms = []
+        for a, k in zip(args, kinds):
+            v = self.expr(a, st, sc)
+            if k == "ints":
+                terms.append(paren(self.seq_term(v)))
+            else:
+                terms.append(paren({"int": to_int_term, "fix": to_fix_term,
+                                    "bool": lambda v: v.lean if v.kind == "bool" else truthy(v)}[k](v)))
+        return V(rkind, f"{lean_name} " + " ".join(terms))
+
     # ---- statements --------------------------------------------------------------------------
     @staticmethod
     def has_return(stmts):
         for s in stmts:
             for n in ast.walk(s):
-                if isinstance(n, ast.Return):
+                if isinstance(n, (ast.Return, ast.Raise)):
                     return True
         return False
 
@@ -421,6 +496,8 @@ class Tr:
                 raise Unsupported("item assignment")
             items = list(base.items)
             items[t.slice.value] = V("int", to_int_term(v), const=v.const if v.kind == "int" else None)
+            if not (v.kind == "int" and v.const is not None and 0 <= v.const <= 255):
+                self.obligations.append(to_int_term(v))      # bytearray item assignment range-checks the value
             self.assign_target(t.value, V("seq", items=items), st)
         else:
             raise Unsupported("assignment target " + type(t).__name__)
@@ -456,6 +533,48 @@ class Tr:
                 continue
             if isinstance(s, ast.Return):
                 return self.finish(st, None if s.value is None else s.value, sc)
+            if isinstance(s, ast.Raise):
+                exc = s.exc
+                name = exc.func.id if isinstance(exc, ast.Call) and isinstance(exc.func, ast.Name) else \
+                    exc.id if isinstance(exc, ast.Name) else None
+                if name is None:
+                    raise Unsupported("raise of a computed exception")
+                err = {"InvalidFrameException": ".invalidFrame", "InvalidResponseException": ".invalidResponse",
+                       "ProtocolError": ".protocol", "AuthenticationError": ".auth"}.get(name, f'(.py "{name}")')
+                return f"Except.error {err}"
+            if isinstance(s, ast.Expr) and isinstance(s.value, ast.Call) and isinstance(s.value.func, ast.Attribute) \
+                    and s.value.func.attr == "append" and len(s.value.args) == 1:
+                cur = self.target_value(s.value.func.value, st)
+                v = self.expr(s.value.args[0], st, sc)
+                if not self.is_seq(cur):
+                    raise Unsupported("append to " + cur.kind)
+                self.obligations.append(to_int_term(v))
+                if cur.kind == "seq":
+                    new = V("seq", items=list(cur.items) + [V("int", to_int_term(v))])
+                else:
+                    new = V("ints", f"({self.seq_term(cur)} ++ [{to_int_term(v)}])")
+                self.assign_target(s.value.func.value, new, st)
+                continue
+            if isinstance(s, ast.For) and not s.orelse and isinstance(s.target, ast.Name):
+                it = self.expr(s.iter, st, sc)
+                if not self.is_seq(it):
+                    raise Unsupported("for over " + it.kind)
+                carried = sorted({t.id for b in s.body for t in ast.walk(b)
+                                  if isinstance(t, ast.Name) and isinstance(t.ctx, ast.Store)} - {s.target.id})
+                if len(carried) != 1 or carried[0] not in st or st[carried[0]].kind != "int":
+                    raise Unsupported("loop must carry exactly one int variable")
+                acc = carried[0]
+                inner = dict(st)
+                inner[acc] = V("int", acc)
+                inner[s.target.id] = V("int", s.target.id)
+                psc = Scope(sc)
+                psc.pure_branch = True
+                after = self.pure_block(s.body, inner, psc)
+                if after[acc].kind != "int":
+                    raise Unsupported("loop variable changes kind")
+                st[acc] = V("int", f"List.foldl (fun ({acc} : Int) ({s.target.id} : Int) => {after[acc].lean}) "
+                                   f"{paren(st[acc].lean)} {paren(self.seq_term(it))}")
+                continue
             if isinstance(s, ast.If):
                 c = self.cond(s.test, st, sc)
                 if self.has_return(s.body) or self.has_return(s.orelse):
@@ -504,7 +623,9 @@ class Tr:
         return st
 
     def emit_scope(self, sc, term):
-        lines = [f"let {name} ← Py.idxI {key[0]} {key[1]}" for key, name in sc.reads]
+        gen = getattr(sc, "general", set())
+        lines = [(f"let {name} ← Py.index {paren(key[0])} {paren(str(key[1]))}" if key in gen
+                  else f"let {name} ← Py.idxI {key[0]} {key[1]}") for key, name in sc.reads]
         if not lines:
             return term
         return "do\n" + textwrap.indent("\n".join(lines) + "\n" + term, "  ")
@@ -520,6 +641,16 @@ class Tr:
                 raise Unsupported("return is not super()." + out[1] + "(x)")
             v = self.expr(retexpr.args[0], st, sc)
             return f"Py.bytesOf {self.seq_term(v)}"
+        if out[0] == "bytes":
+            v = self.expr(retexpr, st, sc)
+            t = f"Py.bytesOf {paren(self.seq_term(v))}"
+            if self.obligations:
+                t = f"Py.guardRange [{', '.join(self.obligations)}] ({t})"
+            return t
+        if out[0] == "unit":
+            if retexpr is not None:
+                raise Unsupported("value returned from a procedure")
+            return "pure ()"
         if out[0] == "value":
             if retexpr is None:
                 v = V("none", "none")
@@ -528,7 +659,8 @@ class Tr:
             k = out[1]
             if k.startswith("opt:"):
                 return self.as_opt(v, k[4:])
-            return {"int": to_int_term, "fix": to_fix_term}[k](v) if k != "bool" else v.lean
+            t = {"int": to_int_term, "fix": to_fix_term}[k](v) if k != "bool" else v.lean
+            return ("pure " + paren(t)) if self.effectful else t
         if out[0] == "attrs":
             fields = []
             for name, k in out[1]:
@@ -554,9 +686,11 @@ class Tr:
         st = {}
         params = []
         for name, k in self.spec["inputs"]:
-            lean_name = name.replace("self.", "")
+            lean_name = name.replace("self.", "").replace("call:", "")
             if k == "bytes":
                 st[name] = V("bytesvar", lean_name)
+            elif k == "ints":
+                st[name] = V("ints", lean_name)
             else:
                 st[name] = V(k, lean_name)
             params.append(f"({lean_name} : {LEAN_TYPES[k]})")
@@ -609,7 +743,30 @@ SETSTATE_INPUTS = [("self.beep_on", "bool"), ("self.power_on", "bool"), ("self.t
 
 CMD = "msmart/device/AC/command.py"
 
+FRAME = "msmart/frame.py"
+
 SPECS = [
+    dict(name="crc8Calculate", file="msmart/crc8.py", func="calculate", inputs=[("data", "ints")],
+         out=("value", "int"), rtype="Int", table_names={"_CRC8_854_TABLE": "crc8TableSrc"},
+         model="((Model.crc8 (data.map (fun x => x.toNat.toUInt8))).toNat : Int)"),
+    dict(name="checksum", file=FRAME, func="Frame.checksum", inputs=[("frame", "ints")],
+         out=("value", "int"), rtype="Int",
+         model="((Model.checksum (frame.map (fun x => x.toNat.toUInt8))).toNat : Int)"),
+    dict(name="frameTobytes", file=FRAME, func="Frame.tobytes",
+         inputs=[("self._device_type", "int"), ("self._protocol_version", "int"), ("self._frame_type", "int"), ("data", "bytes")],
+         out=("bytes",), rtype="R Bytes", effectful=True,
+         functions={"Frame.checksum": ("checksum", ["ints"], "int"), "cls.checksum": ("checksum", ["ints"], "int"),
+                    "self.checksum": ("checksum", ["ints"], "int")},
+         model="Model.frameToBytes _device_type.toNat.toUInt8 _frame_type.toNat.toUInt8 data"),
+    dict(name="frameValidate", file=FRAME, func="Frame.validate", inputs=[("frame", "bytes")],
+         out=("unit",), rtype="R Unit", effectful=True,
+         functions={"Frame.checksum": ("checksum", ["ints"], "int"), "cls.checksum": ("checksum", ["ints"], "int")},
+         model="Model.frameValidate frame"),
+    dict(name="commandPayload", file=CMD, func="Command.tobytes", inputs=[("data", "bytes"), ("call:msg_id", "int")],
+         call_inputs={"_next_message_id": "call:msg_id"},
+         out=("super_arg", "tobytes"), rtype="R Bytes", effectful=True,
+         functions={"crc8.calculate": ("crc8Calculate", ["ints"], "int")},
+         model="Except.ok (data ++ [msg_id.toNat.toUInt8] ++ [Model.crc8 (data ++ [msg_id.toNat.toUInt8])])"),
     dict(name="setStateBody", file=CMD, func="SetStateCommand.tobytes", inputs=SETSTATE_INPUTS,
          out=("super_arg", "tobytes"), consts_from="Command", effectful=True, rtype="R Bytes",
          model="Model.setStateBody { beep := beep_on, power := power_on, tempCenti := target_temperature, "
@@ -649,6 +806,7 @@ def translate_all(repo=None):
     report = {}
     defs = []
     trees = {}
+    tables_out = {}
     for spec in SPECS:
         path = os.path.join(repo, spec["file"])
         try:
@@ -668,9 +826,22 @@ def translate_all(repo=None):
             cc.update(class_int_consts(cls))
             sp["class_consts"] = cc
             argnames = [a.arg for a in fn.args.args]
-            want = ["self"] + [n for n, _k in spec["inputs"] if not n.startswith("self.")]
+            if argnames and argnames[0] in ("self", "cls"):
+                argnames = argnames[1:]
+            want = [n for n, _k in spec["inputs"] if not n.startswith("self.") and not n.startswith("call:")]
             if argnames != want or fn.args.vararg or fn.args.kwarg or fn.args.kwonlyargs:
                 raise Unsupported(f"signature {argnames} (expected {want})")
+            if spec.get("table_names"):
+                sp["tables"] = {}
+                for tn, lean_tn in spec["table_names"].items():
+                    node = next((n for n in tree.body if isinstance(n, ast.Assign) and len(n.targets) == 1
+                                 and isinstance(n.targets[0], ast.Name) and n.targets[0].id == tn), None)
+                    if node is None or not isinstance(node.value, ast.List) or not all(
+                            isinstance(x, ast.Constant) and isinstance(x.value, int) for x in node.value.elts):
+                        raise Unsupported(f"module constant {tn} is not a literal list of ints")
+                    vals = [x.value for x in node.value.elts]
+                    sp["tables"][tn] = (lean_tn, len(vals))
+                    tables_out[lean_tn] = vals
             tr = Tr(sp, fn, cls, generated=spec.get("generated"))
             params, term = tr.translate()
             spec["_params"] = params
@@ -685,8 +856,14 @@ def translate_all(repo=None):
             defs.append((spec, None, False))
     out = []
     out.append("-- GENERATED by harness/pytrans.py from the current source text of /repo. DO NOT EDIT.\n")
-    out.append("import Msmart.Py.Ops\nimport Msmart.Model.Response\n\nset_option linter.unusedVariables false\n\nnamespace Msmart.Generated.Codec\nopen Msmart\n\n")
+    out.append("import Msmart.Py.Ops\nimport Msmart.Model.Response\nimport Msmart.Generated.Crc8Table\n\nset_option linter.unusedVariables false\n\nnamespace Msmart.Generated.Codec\nopen Msmart\n\n")
     out.append(STATE_STRUCT)
+    for spec in SPECS:
+        for _tn, lean_tn in (spec.get("table_names") or {}).items():
+            if lean_tn not in tables_out:      # not readable from the source: the table the public function steps through
+                out.append(f"def {lean_tn} : List Int := Msmart.Generated.crc8Table.toList.map (fun b => (b.toNat : Int))\n\n")
+    for lean_tn, vals in tables_out.items():
+        out.append(f"/-- module-level table, as written in the source -/\ndef {lean_tn} : List Int := [" + ", ".join(map(str, vals)) + "]\n\n")
     for spec, text, ok in defs:
         out.append(f"/-- `{spec['func']}` ({spec['file']}) -/\n")
         if ok:
@@ -694,7 +871,7 @@ def translate_all(repo=None):
             out.append(f"def {spec['name']}_translated : Bool := true\n\n")
         else:
             # alias of the model: the tie for this function is the correspondence check only
-            params = [f"({n.replace('self.', '')} : {LEAN_TYPES[k]})" for n, k in spec["inputs"]]
+            params = [f"({n.replace('self.', '').replace('call:', '')} : {LEAN_TYPES[k]})" for n, k in spec["inputs"]]
             out.append(f"def {spec['name']} {' '.join(params)} : {spec['rtype']} :=\n  {spec['model']}\n")
             out.append(f"def {spec['name']}_translated : Bool := false\n\n")
     out.append("end Msmart.Generated.Codec\n")
